@@ -87,9 +87,11 @@ def check(ctx):
         ctx.ob("R-SIB", DF, "del-fd/nulls-event-data", ok, "del_fd marks the armed timer entry dead" if ok else "del_fd no longer nulls the armed timer entry: its expiry dereferences a freed EventData", f.where())
     # free after ready list
     SS = SEL + "::select"
-    ctx.order(SS, Call(re.escape("may::scheduler::Scheduler::run_queued_tasks"), transitive=False), Call(re.escape(SEL) + "::free_unused_event_data", transitive=False),
+    # "free the retired EventData": the drain of SingleSelector.free_ev, through the free_unused_event_data helper or directly
+    FREE_EV = Call(r"may_queue::mpsc::Queue::(bulk_pop|pop)", on="may::io::sys::select::SingleSelector.free_ev")
+    ctx.order(SS, Call(re.escape("may::scheduler::Scheduler::run_queued_tasks"), transitive=False), FREE_EV,
               "select/free-after-ready-list", "retired EventData are freed only after the ready list of this epoll_wait was processed (an event may still point to them)")
-    ctx.order(SS, Call(re.escape(SEL) + "::free_unused_event_data", transitive=False), Call(r"may::timeout_list::TimeOutList::schedule_timer", transitive=False),
+    ctx.order(SS, FREE_EV, Call(r"may::timeout_list::TimeOutList::schedule_timer", transitive=False),
               "select/timers-after-free", "io timers run on the selector thread after the ready list")
     # ---- timeout_handler
     TH = "may::io::sys::timeout_handler"
